@@ -282,6 +282,9 @@ class PropertyCheck:
     assumptions = []
     trusted_extra = []
     technique = "Lean 4 proof over hand model + differential correspondence"
+    level_text = ""
+    level_note = ""
+    design_ref = "DESIGN.md section 3"
 
     def __init__(self, tier, seed):
         self.tier = tier
